@@ -333,7 +333,7 @@ static cfg_opt_t *cfg_getopt_secidx(cfg_t *cfg, const char *name,
 			*index = i;
 
 		sec = i >= 0 ? cfg_opt_getnsec(opt, i) : NULL;
-		if (!sec && !is_set(CFGF_IGNORE_UNKNOWN, cfg->flags)) {
+		if (!sec && !is_set(CFGF_IGNORE_UNKNOWN, cfg->flags) && !is_set(CFGF_KEYSTRVAL, cfg->flags)) {
 			if (opt && !is_set(CFGF_MULTI, opt->flags))
 				cfg_error(cfg, _("no such option '%s'"), secname);
 			else if (title)
@@ -353,7 +353,7 @@ static cfg_opt_t *cfg_getopt_secidx(cfg_t *cfg, const char *name,
 			name += strspn(name, "|");
 			/* A path cannot end in a separator */
 			if (!*name) {
-				if (!is_set(CFGF_IGNORE_UNKNOWN, cfg->flags))
+				if (!is_set(CFGF_IGNORE_UNKNOWN, cfg->flags) && !is_set(CFGF_KEYSTRVAL, cfg->flags))
 					cfg_error(cfg, _("no option name after '%s'"), path);
 				return NULL;
 			}
@@ -370,7 +370,7 @@ static cfg_opt_t *cfg_getopt_secidx(cfg_t *cfg, const char *name,
 		opt = cfg_getopt_leaf(sec, name);
 
 		/* In a free-form key=value section a missing key is no error */
-		if (!opt && !is_set(CFGF_IGNORE_UNKNOWN, cfg->flags) && !is_set(CFGF_KEYSTRVAL, sec->flags))
+		if (!opt && !is_set(CFGF_IGNORE_UNKNOWN, cfg->flags) && !is_set(CFGF_KEYSTRVAL, cfg->flags))
 			cfg_error(cfg, _("no such option '%s'"), name);
 	}
 
